@@ -9,6 +9,8 @@ CompressorStrategy(n)).  The models mirror the code with the repairs fixes/C04-1
 "Covered" is the strong reading: ONE returned chunk encloses the record's whole chunk.
 -/
 import Hts.Lemmas.IndexMerge
+import Hts.Lemmas.IndexCsi
+import Hts.Lemmas.IndexTabix
 import Hts.Props.C16
 namespace Hts.Props.C04
 open Hts.Model Hts.Model.Index
@@ -161,6 +163,161 @@ theorem bai_error_or_empty_means_no_overlap (recs : List Bai.BaiRec) (h : Sorted
     cases h1
     cases hc
 
+/-! ### CSI: `csi.Index`, every geometry (minShift, depth) with depth ≤ 10 -/
+section csi
+open Hts.Model.Csi
+
+/-- `csi.New(minShift, depth)` (version and auxiliary data play no role for Add and Chunks) -/
+def csiNew (ms d : Nat) : CIndex := { minShift := ms, depth := d }
+
+def csiBuilt (ms d : Nat) (recs : List CRec) : CIndex := (Csi.addAll Coord.reg2bin (csiNew ms d) recs).1
+
+theorem csi_inv (ms d : Nat) (recs : List CRec) (h : CSortedInput ms d recs) :
+    allOk (Csi.addAll Coord.reg2bin (csiNew ms d) recs).2 ∧ (csiBuilt ms d recs).minShift = ms ∧
+      (csiBuilt ms d recs).depth = d ∧
+      CIdxInv (fun x => Coord.reg2bin x.start x.stop ms d) (csiBuilt ms d recs) (recs.filter (·.placed)).reverse := by
+  have init : CIdxInv (fun x => Coord.reg2bin x.start x.stop ms d) (csiNew ms d) [] :=
+    { flag := rfl
+      len0 := fun _ => rfl
+      last := by intro a rest h; cases h
+      ridLt := by intro a h; cases h
+      refInv := by intro j ref h; simp [csiNew] at h }
+  have := Csi.addAll_inv Coord.reg2bin ms d recs (csiNew ms d) [] rfl rfl init (by intro a ha; cases ha)
+    h.ok h.sorted (by intro a ha; cases ha)
+  simpa [csiBuilt] using this
+
+/-- `add_never_fails` for CSI -/
+theorem csi_add_never_fails (ms d : Nat) (recs : List CRec) (h : CSortedInput ms d recs) :
+    ∀ x, x ∈ (Csi.addAll Coord.reg2bin (csiNew ms d) recs).2 → x = AddRes.ok :=
+  (csi_inv ms d recs h).1
+
+/-- the bin law of C16 for CSI in the form needed here -/
+theorem csi_bin_law (ms d : Nat) (hd : d ≤ 10) (r : CRec) (hok : CRecOK ms d r) (hp : r.placed = true)
+    (beg stop : Int) (hb : 0 ≤ beg) (hq : beg < stop) (hs : stop ≤ (2 : Int) ^ (ms + 3 * d))
+    (hov1 : r.start < stop) (hov2 : beg < r.stop) :
+    Coord.reg2bin r.start r.stop ms d ∈ Coord.reg2bins beg stop ms d := by
+  obtain ⟨h0, hlt⟩ := hok.pos hp
+  have hv := hok.vstop
+  simp only [Csi.validPos, Bool.and_eq_true, decide_eq_true_eq] at hv
+  have e : ((2 ^ (ms + 3 * d) : Nat) : Int) = (2 : Int) ^ (ms + 3 * d) := by
+    rw [Int.natCast_pow]; rfl
+  have := Hts.Props.C16.csi_bin_in_bins r.start.toNat r.stop.toNat beg.toNat stop.toNat ms d hd
+    (by omega) (by omega) (by omega) (by omega) (by omega) (by omega)
+  have e1 : ((r.start.toNat : Nat) : Int) = r.start := by omega
+  have e2 : ((r.stop.toNat : Nat) : Int) = r.stop := by omega
+  have e3 : ((beg.toNat : Nat) : Int) = beg := by omega
+  have e4 : ((stop.toNat : Nat) : Int) = stop := by omega
+  rw [e1, e2, e3, e4] at this
+  exact this
+
+/-- `chunks_complete` for CSI: for every geometry with depth ≤ 10, every coordinate-sorted sequence,
+every query `[beg, stop)` with `0 ≤ beg < stop ≤ 2^(minShift+3·depth)` and every placed record
+overlapping it, one chunk returned by `csi.Index.Chunks` encloses the record's chunk; also after
+`MergeChunks pre` for every `pre` with `EncLaw` -/
+theorem csi_chunks_complete (ms d : Nat) (hd : d ≤ 10) (recs : List CRec) (h : CSortedInput ms d recs)
+    (r : CRec) (hr : r ∈ recs) (hp : r.placed = true)
+    (beg stop : Int) (hb : 0 ≤ beg) (hq : beg < stop) (hs : stop ≤ (2 : Int) ^ (ms + 3 * d))
+    (hov1 : r.start < stop) (hov2 : beg < r.stop)
+    (pre : List Chunk → List Chunk) (hpre : EncLaw pre) :
+    coveredBy (Csi.chunks Coord.reg2bins Local.adjacent (csiBuilt ms d recs) r.rid beg stop) r.chunk ∧
+    coveredBy (Csi.chunks Coord.reg2bins Local.adjacent (Csi.mergeChunks pre (csiBuilt ms d recs)) r.rid beg stop)
+      r.chunk := by
+  obtain ⟨_, hms, hdp, inv⟩ := csi_inv ms d recs h
+  have hmem : r ∈ (recs.filter (·.placed)).reverse := by
+    rw [List.mem_reverse, List.mem_filter]; exact ⟨hr, hp⟩
+  have hbin := csi_bin_law ms d hd r (h.ok r hr) hp beg stop hb hq hs hov1 hov2
+  constructor
+  · exact Csi.chunks_complete_cover Coord.reg2bins Local.adjacent Local.encLaw_adjacent _ _ _ inv.cover r hmem
+      beg stop (by rw [hms, hdp]; exact hbin)
+  · exact Csi.chunks_complete_cover Coord.reg2bins Local.adjacent Local.encLaw_adjacent _ _ _
+      (Csi.mergeChunks_cover pre hpre _ _ _ inv.cover) r hmem beg stop
+      (by show _ ∈ Coord.reg2bins beg stop (csiBuilt ms d recs).minShift (csiBuilt ms d recs).depth
+          rw [hms, hdp]; exact hbin)
+
+/-- an empty answer (also the answer for an unknown reference) implies that no added placed record
+overlaps the query -/
+theorem csi_empty_means_no_overlap (ms d : Nat) (hd : d ≤ 10) (recs : List CRec) (h : CSortedInput ms d recs)
+    (rid beg stop : Int) (hb : 0 ≤ beg) (hq : beg < stop) (hs : stop ≤ (2 : Int) ^ (ms + 3 * d))
+    (hans : Csi.chunks Coord.reg2bins Local.adjacent (csiBuilt ms d recs) rid beg stop = []) :
+    ¬ ∃ r, r ∈ recs ∧ r.placed = true ∧ r.rid = rid ∧ r.start < stop ∧ beg < r.stop := by
+  rintro ⟨r, hr, hp, hrid, hov1, hov2⟩
+  obtain ⟨⟨c, hc, _⟩, _⟩ := csi_chunks_complete ms d hd recs h r hr hp beg stop hb hq hs hov1 hov2 id encLaw_id
+  rw [hrid, hans] at hc
+  cases hc
+
+end csi
+
+/-! ### tabix: `tabix.Index` (reference names in front of the internal index) -/
+section tabix
+open Hts.Model.Tabix
+
+/-- `tabix.New()` with any header fields -/
+def tbxNew (hdr : Header) : TIndex := { hdr := hdr }
+
+/-- the internal records (with the reference ids assigned by the name table) a tabix input turns into -/
+def tbxTrace (hdr : Header) (recs : List TRec) : List Rec := Tabix.trace Coord.binFor (tbxNew hdr) recs
+
+def tbxBuilt (hdr : Header) (recs : List TRec) : TIndex := (Tabix.addAll Coord.binFor (tbxNew hdr) recs).1
+
+/-- `add_never_fails` for tabix; "sorted" means: the internal records are coordinate-sorted, i.e. the
+records of one name are contiguous (ids are given in order of first placed appearance) -/
+theorem tabix_add_never_fails (hdr : Header) (recs : List TRec) (h : SortedInput (tbxTrace hdr recs)) :
+    ∀ x, x ∈ (Tabix.addAll Coord.binFor (tbxNew hdr) recs).2 → x = AddRes.ok := by
+  rw [(Tabix.addAll_idx Coord.binFor recs (tbxNew hdr)).2]
+  exact (addAll_sorted _ h).1
+
+/-- `chunks_complete` for tabix: the `k`-th record, if placed, is covered by one chunk of the answer
+to every overlapping in-range query on its reference NAME; also after `MergeChunks pre` -/
+theorem tabix_chunks_complete (hdr : Header) (recs : List TRec) (h : SortedInput (tbxTrace hdr recs))
+    (k : Nat) (r : TRec) (hk : recs[k]? = some r) (hp : r.placed = true)
+    (beg stop : Int) (hb : 0 ≤ beg) (hq : beg < stop) (hs29 : stop ≤ 536870912)
+    (hov1 : r.start < stop) (hov2 : beg < r.stop)
+    (pre : List Chunk → List Chunk) (hpre : EncLaw pre) :
+    (∃ cs, Tabix.chunks Coord.overlappingBinsFor Local.adjacent (tbxBuilt hdr recs) r.name beg stop = .ok cs ∧
+        coveredBy cs r.chunk) ∧
+    (∃ cs, Tabix.chunks Coord.overlappingBinsFor Local.adjacent (Tabix.mergeChunks pre (tbxBuilt hdr recs))
+        r.name beg stop = .ok cs ∧ coveredBy cs r.chunk) := by
+  obtain ⟨x, hx, hxs, hxe, hxc, hxp, _, hxb⟩ := Tabix.trace_get Coord.binFor recs (tbxNew hdr) k r hk
+  have hxmem : x ∈ tbxTrace hdr recs := List.mem_of_getElem? hx
+  have hpx : x.placed = true := by rw [hxp]; exact hp
+  have hname : Tabix.mapGet (tbxBuilt hdr recs).nameMap r.name = some x.rid.toNat :=
+    (Tabix.names_final Coord.binFor recs (tbxNew hdr) [] idxInv_empty (by intro a ha; cases ha)
+      h.ok h.sorted (by intro a ha; cases ha)).2 k r x hk hx hp
+  have hidx : (tbxBuilt hdr recs).idx = built (tbxTrace hdr recs) :=
+    (Tabix.addAll_idx Coord.binFor recs (tbxNew hdr)).1
+  have hokx := h.ok x hxmem
+  have hrid := hokx.rid hpx
+  have hbin := bai_bin_law x hokx hpx (by rw [hxb, hxs, hxe]) beg stop hb hq hs29 (by omega) (by omega)
+  obtain ⟨⟨cs, h1, h2⟩, ⟨cs', h1', h2'⟩⟩ := chunks_complete (tbxTrace hdr recs) h x hxmem hpx beg stop
+    (Coord.overlappingBinsFor beg stop) hb hq (by omega) hbin pre Local.adjacent hpre Local.encLaw_adjacent
+  have hcast : ((x.rid.toNat : Nat) : Int) = x.rid := by omega
+  constructor
+  · refine ⟨Local.adjacent cs, ?_, by rw [← hxc]; exact h2⟩
+    unfold Tabix.chunks
+    rw [hname]
+    simp only [hidx, hcast, h1]
+  · refine ⟨Local.adjacent cs', ?_, by rw [← hxc]; exact h2'⟩
+    unfold Tabix.chunks Tabix.mergeChunks
+    simp only [hname, hidx, hcast, h1']
+
+/-- an error or an empty answer for a name implies that no placed record of that name overlaps -/
+theorem tabix_error_or_empty_means_no_overlap (hdr : Header) (recs : List TRec)
+    (h : SortedInput (tbxTrace hdr recs)) (name : Name) (beg stop : Int) (hb : 0 ≤ beg) (hq : beg < stop)
+    (hs29 : stop ≤ 536870912)
+    (hans : (∃ e, Tabix.chunks Coord.overlappingBinsFor Local.adjacent (tbxBuilt hdr recs) name beg stop = .error e) ∨
+            Tabix.chunks Coord.overlappingBinsFor Local.adjacent (tbxBuilt hdr recs) name beg stop = .ok []) :
+    ¬ ∃ (k : Nat) (r : TRec), recs[k]? = some r ∧ r.placed = true ∧ r.name = name ∧ r.start < stop ∧ beg < r.stop := by
+  rintro ⟨k, r, hk, hp, hn, hov1, hov2⟩
+  obtain ⟨⟨cs, h1, c, hc, _⟩, _⟩ := tabix_chunks_complete hdr recs h k r hk hp beg stop hb hq hs29 hov1 hov2 id encLaw_id
+  rw [hn] at h1
+  rcases hans with ⟨e, he⟩ | he
+  · rw [he] at h1; cases h1
+  · rw [he] at h1
+    cases h1
+    cases hc
+
+end tabix
+
 /-! ### non-vacuity: a sorted BAI input with a tile-straddling record, a record spanning three tiles,
 a skipped reference id, a placed-unmapped and an unplaced record (tests) -/
 
@@ -180,5 +337,27 @@ example : ∃ cs, Bai.chunks Coord.overlappingBinsFor Local.adjacent (baiBuilt e
     16400 16450 (by decide) (by decide) (by decide) (by decide) (by decide) id Local.adjacent encLaw_id
     adjacent_encloses).1
 example : EncLaw (Local.compressor (-1)) := compressor_encloses (-1)
+
+/-- a tabix input: two names, an unplaced line naming a third one in between -/
+def exTbx : List Tabix.TRec :=
+  [ ⟨[99, 104, 114, 49], 100, 200, ⟨0, 150⟩, true, true⟩,
+    ⟨[99, 104, 114, 49], 16000, 16500, ⟨150, 200⟩, true, true⟩,
+    ⟨[42], -1, 0, ⟨200, 250⟩, false, false⟩,
+    ⟨[99, 104, 114, 50], 5, 40000, ⟨250, 300⟩, true, false⟩ ]
+example : SortedInput (tbxTrace {} exTbx) := by decide
+example : (tbxBuilt {} exTbx).names = [[99, 104, 114, 49], [99, 104, 114, 50]] := by decide
+example : ∃ cs, Tabix.chunks Coord.overlappingBinsFor Local.adjacent (tbxBuilt {} exTbx) [99, 104, 114, 50] 39000 39500
+    = .ok cs ∧ coveredBy cs ⟨250, 300⟩ :=
+  (tabix_chunks_complete {} exTbx (by decide) 3 _ rfl (by decide) 39000 39500 (by decide) (by decide) (by decide)
+    (by decide) (by decide) id encLaw_id).1
+
+/-- a small CSI geometry (minShift 4, depth 2: positions below 1024) with a record over two finest bins -/
+def exCsi : List Csi.CRec :=
+  [ ⟨0, 0, 17, ⟨2309, 524288⟩, true, true⟩, ⟨1, -1, 0, ⟨524288, 524300⟩, false, false⟩,
+    ⟨0, 128, 290, ⟨524300, 600000⟩, true, false⟩, ⟨3, 1021, 1022, ⟨600000, 600001⟩, true, true⟩ ]
+example : Csi.CSortedInput 4 2 exCsi := by decide
+example : coveredBy (Csi.chunks Coord.reg2bins Local.adjacent (csiBuilt 4 2 exCsi) 0 2 3) ⟨2309, 524288⟩ :=
+  (csi_chunks_complete 4 2 (by decide) exCsi (by decide) ⟨0, 0, 17, ⟨2309, 524288⟩, true, true⟩ (by decide)
+    (by decide) 2 3 (by decide) (by decide) (by decide) (by decide) (by decide) id encLaw_id).1
 
 end Hts.Props.C04
